@@ -13,7 +13,7 @@ import (
 func init() {
 	register(&propDef{
 		ID:       "C15",
-		Explain:  "Decided (structural necessary conditions): every outcome of gnmiUpdate bumps exactly its own category counter on every path (stale, future, suppressed; accepted => none in the callee and exactly one UpdateCount in the caller before the feed call; empty notifications => EmptyCount only); LeafCount+1 only together with AddCount+1 after a successful Tree.Add of a non-metadata leaf, LeafCount-d only together with DelCount+d with d the number of removed leaves — and under the same non-metadata restriction as the increment; checkTimestamp only moves the latest timestamp forward and is called at exit exactly when some update of the notification was accepted; all places that decide 'is this a metadata path' use element 0 of the joined index path; every Target field written after construction is accessed under one lock; Latency/window/Metadata state only under their mutex; window.slide tests every slot against the cutoff (can drop more than one per call). Round-3 addition: the amount subtracted from LeafCount is a per-leaf counter incremented only for non-metadata leaves in every scenario (a glob at the top of a delete path spans both subtrees).",
+		Explain:  "Decided (structural necessary conditions): every outcome of gnmiUpdate bumps exactly its own category counter on every path (stale, future, suppressed; accepted => none in the callee and exactly one UpdateCount in the caller before the feed call; empty notifications => EmptyCount only); LeafCount+1 only together with AddCount+1 after a successful Tree.Add of a non-metadata leaf, LeafCount-d only together with DelCount+d with d the number of removed leaves — and under the same non-metadata restriction as the increment; checkTimestamp only moves the latest timestamp forward and is called at exit exactly when some update of the notification was accepted; all places that decide 'is this a metadata path' use element 0 of the joined index path; every Target field written after construction is accessed under one lock; Latency/window/Metadata state only under their mutex; window.slide tests every slot against the cutoff (can drop more than one per call). Round-3 addition: the amount subtracted from LeafCount is a per-leaf counter incremented only for non-metadata leaves in every scenario (a glob at the top of a delete path spans both subtrees). Round-4 additions: the (updates, deletes) dispatch table of Target.GnmiUpdate (every submitted update reaches the function that counts it); no store through a notification read out of the tree (stored messages are shared with readers holding only the node's read lock).",
 		NotCover: "the numerical claims (leaf count equals stored leaves, min <= exported <= max up to precision, window arithmetic) — they quantify over runtime values",
 		Run:      runC15,
 	})
